@@ -292,6 +292,70 @@ example : pollC [.odel 0, .ocopy 1 0, .notify 0, .onew 0 0, .bnew 0] 1 = .res tr
 example : pollC [.bdel 0, .odel 0, .ocopy 1 0, .notify 0, .onew 0 0, .bnew 0] 1 = .res false := by decide
 example : (runC [.odel 1, .bdel 0, .odel 0, .ocopy 1 0, .onew 0 0, .bnew 0]).1.fault = false := by decide
 
+/-! ### stamps drawn by the rest of the process
+
+The counter is process-wide: between two operations of an observer history any number of stamps may be drawn by code
+that has nothing to do with these observers (other `TimeStamp`s, other observables; 2^31 or 2^40 of them in a
+long-running renderer).  `HOp` adds such draws to the histories; the theorems say they are invisible: only the order
+of the stamps an observer and its observable hold matters, never their distance. -/
+
+inductive HOp where
+  | op (o : Op)
+  | draws (n : Nat)        -- n stamps handed out elsewhere
+deriving Repr, DecidableEq
+
+def stepH (s : St) : HOp → St × Option Out
+  | .op o => let (s', r) := stepC s o; (s', some r)
+  | .draws n => (jump s n, none)
+
+/-- History (most recent first) with foreign draws: final state and the outputs of the operations. -/
+def runH : List HOp → St × List Out
+  | [] => ({}, [])
+  | h :: earlier =>
+    let (s, outs) := runH earlier
+    match stepH s h with
+    | (s', some o) => (s', o :: outs)
+    | (s', none) => (s', outs)
+
+def HOp.op? : HOp → Option Op
+  | .op o => some o
+  | .draws _ => none
+
+theorem jump_rel {s : St} {a : ASt} (h : Rel s a) (n : Nat) : Rel (jump s n) a := by
+  obtain ⟨h1, h2, h3, h3', h4, h5, h6, h7, h8, h9⟩ := h
+  exact ⟨h1, h2, h3, h3', h4, h5, h6, h7,
+    fun o c hc => Nat.lt_of_lt_of_le (h8 o c hc) (Nat.le_add_right _ _),
+    fun b B hb => Nat.lt_of_lt_of_le (h9 b B hb) (Nat.le_add_right _ _)⟩
+
+/-- foreign_draws_invisible: whatever numbers of stamps are drawn elsewhere between the operations, every
+    `wasNotified()` result and every ok/skip is the one of the `pending`-bit specification run on the operations alone,
+    and no dangling pointer is followed. -/
+theorem foreign_draws_invisible (hist : List HOp) :
+    (runH hist).2 = (runA (hist.filterMap HOp.op?)).2 ∧ (runH hist).1.fault = false := by
+  have key : Rel (runH hist).1 (runA (hist.filterMap HOp.op?)).1 ∧ (runH hist).2 = (runA (hist.filterMap HOp.op?)).2 := by
+    induction hist with
+    | nil => exact ⟨Rel.init, rfl⟩
+    | cons h earlier ih =>
+      obtain ⟨hr, ho⟩ := ih
+      cases h with
+      | op o =>
+        have := sim_step hr o
+        simp only [runH, stepH, List.filterMap_cons, HOp.op?, runA]
+        exact ⟨this.1, by rw [this.2, ho]⟩
+      | draws n =>
+        simp only [runH, stepH, List.filterMap_cons, HOp.op?]
+        exact ⟨jump_rel hr n, ho⟩
+  exact ⟨key.2, key.1.nofault⟩
+
+/-- in particular the outputs do not depend on how many stamps were drawn elsewhere, nor where. -/
+theorem foreign_draws_irrelevant (h1 h2 : List HOp) (h : h1.filterMap HOp.op? = h2.filterMap HOp.op?) :
+    (runH h1).2 = (runH h2).2 := by
+  rw [(foreign_draws_invisible h1).1, (foreign_draws_invisible h2).1, h]
+
+-- non-vacuity: a notification 2^31 draws before the poll is still seen, once
+example : (runH [.op (.poll 0), .op (.poll 0), .draws (2 ^ 31), .op (.notify 0), .draws (2 ^ 32), .op (.onew 0 0), .op (.bnew 0)]).2
+    = [.res false, .res true, .ok, .ok, .ok] := by decide
+
 /-! ## Time stamps -/
 
 /-- the state every schedule starts from: counter at any value, nothing handed out yet. -/
